@@ -258,7 +258,14 @@ class WSGIRequestHandler(BaseHTTPRequestHandler):
         if self.headers.get("Expect", "").lower().strip() == "100-continue":
             self.wfile.write(b"HTTP/1.1 100 Continue\r\n\r\n")
 
-        self.environ = environ = self.make_environ()
+        try:
+            self.environ = environ = self.make_environ()
+        except ValueError:
+            # The request target cannot be split as a URL, for example an
+            # absolute form with an unclosed IPv6 bracket.
+            self.send_error(400, "Bad request target")
+            return
+
         status_set: str | None = None
         headers_set: list[tuple[str, str]] | None = None
         status_sent: str | None = None
